@@ -12,7 +12,7 @@ from copy import deepcopy
 from typing import Any
 
 from exabgp.bgp.message.update.nlri import NLRI
-from exabgp.bgp.message.update.collection import validate_announce_nlri
+from exabgp.bgp.message.update.collection import validate_announce_route
 from exabgp.bgp.neighbor import Neighbor
 from exabgp.bgp.neighbor.capability import GracefulRestartConfig
 from exabgp.configuration.core import Error, Parser, Scope, Section
@@ -623,7 +623,7 @@ class ParseNeighbor(Section):
                     ),
                 )
             # refuse now what could not be encoded: the session would be torn down every time it is sent
-            incomplete = validate_announce_nlri(route.nlri, route.nexthop)
+            incomplete = validate_announce_route(route)
             if incomplete:
                 return self.error.set(incomplete)
 
